@@ -14,7 +14,8 @@ Inductive pop : Type :=
 | PIsRelTo (args : list parg)
 | PParentsGet (idx : Z)
 | PAtHost (h : nat)
-| PCmp (other : list (list N)).
+| PCmp (other : list (list N))
+| PEqHost (h : nat) (other : list (list N)).
 
 Definition to_targ (a : parg) : targ :=
   match a with PS s => AStr s | PP h segs => APath (mkTP h (pp_make segs)) end.
@@ -60,6 +61,8 @@ Definition step_p (o : pop) (p : tpath) : V * tpath :=
   | PCmp other =>
       let q := pp_make other in
       (VL [VN 0; VL [VBool (pp_eqb (tp_pp p) q); VBool (pp_ltb (tp_pp p) q); VBool (pp_ltb q (tp_pp p))]], p)
+  | PEqHost h other =>
+      (VL [VN 0; VL [VBool (t_eqb p (mkTP h (pp_make other))); VBool true]], p)
   end.
 
 Fixpoint run_p (ops : list pop) (p : tpath) : list V :=
